@@ -7,7 +7,7 @@
           ty |-> "file" | "dir" | "link" | "unsafe", size, crc, mtime (<<hi, lo>> or <<-1>> = not
           guaranteed), mode (-1 = not guaranteed), traw |-> link target, hp |-> permissions are recorded]
    opts: [flat |-> option i, wd |-> components of w=DIR (<<>> = none), policy |-> "prompt" | "all"]
-   pre:  files present beforehand [comps, size, crc, mode]
+   pre:  what is present beforehand [comps, ty ("file" | "dir" | "link"), size, crc, mode, traw, live (a link: its target exists)]
    answers: first byte of each line typed on stdin (10 = empty line)
 
    A node of the result: [ty, size, crc, mtime, mode, traw]; -1 / <<-1>> = any value is acceptable.
@@ -28,7 +28,7 @@ EXTENDS Naturals, Sequences, SequencesExt, FiniteSets, Glob
 
 ANY == -1
 ANYT == <<-1>>
-DirNodeX(mode, mtime) == [ty |-> "dir", size |-> 0, crc |-> 0, mtime |-> mtime, mode |-> mode, traw |-> ""]
+DirNodeX(mode, mtime) == [ty |-> "dir", size |-> 0, crc |-> 0, mtime |-> mtime, mode |-> mode, traw |-> "", live |-> TRUE]
 Put(t, loc, nd) == [x \in DOMAIN t \cup {loc} |-> IF x = loc THEN nd ELSE t[x]]
 Lower(b) == IF b >= 65 /\ b <= 90 THEN b + 32 ELSE b
 
@@ -73,21 +73,25 @@ Step(base, opts, filters, st, it) ==
      ELSE IF opts.flat /\ it.ty = "dir" THEN s1
      ELSE
      LET loc == base \o opts.wd \o (IF opts.flat THEN <<it.comps[Len(it.comps)]>> ELSE it.comps)
-         nd  == [ty |-> it.ty, size |-> it.size, crc |-> it.crc, mtime |-> it.mtime, mode |-> it.mode, traw |-> it.traw]
+         nd  == [ty |-> it.ty, size |-> it.size, crc |-> it.crc, mtime |-> it.mtime, mode |-> it.mode, traw |-> it.traw, live |-> TRUE]
          t1  == WithParents(s1.tree, base, loc)
      IN IF it.ty = "dir"
         THEN IF loc \in DOMAIN s1.tree /\ s1.tree[loc].ty = "dir"
              THEN s1     \* ExistingDirLeftAlone: mkdir fails with EEXIST, the directory keeps its mode and time (extract_directory)
              ELSE [s1 EXCEPT !.tree = Put(t1, loc, DirNodeX(IF it.hp THEN 448 ELSE 493, ANYT)),
                              !.stack = <<[loc |-> loc, pb |-> it.pb, mode |-> it.mode, mtime |-> it.mtime]>> \o @]
-        ELSE IF it.ty = "file" /\ loc \in DOMAIN s1.tree /\ s1.tree[loc].ty = "file"
+        \* ("exists" is what stat says: a symbolic link counts if it leads somewhere - to a file or to a directory - and then the
+        \*  link itself is what gets replaced, never what it points to; a dangling link is replaced without asking)
+        ELSE IF it.ty = "file" /\ loc \in DOMAIN s1.tree /\ (s1.tree[loc].ty = "file" \/ (s1.tree[loc].ty = "link" /\ s1.tree[loc].live))
         THEN LET a == Ask(s1.policy, s1.ans)
              IN [s1 EXCEPT !.tree = IF a.go THEN Put(t1, loc, nd) ELSE s1.tree, !.policy = a.policy, !.ans = a.ans]
         ELSE [s1 EXCEPT !.tree = Put(t1, loc, nd)]
 
 ModelTree(base, items, opts, filters, pre, answers) ==
   LET t0   == FoldLeft(LAMBDA a, p : Put(WithParents(a, base, base \o p.comps), base \o p.comps,
-                                         [ty |-> "file", size |-> p.size, crc |-> p.crc, mtime |-> ANYT, mode |-> p.mode, traw |-> ""]),
+                                         IF p.ty = "dir" THEN DirNodeX(p.mode, ANYT)
+                                         ELSE IF p.ty = "link" THEN [ty |-> "link", size |-> 0, crc |-> 0, mtime |-> ANYT, mode |-> ANY, traw |-> p.traw, live |-> p.live]
+                                         ELSE [ty |-> "file", size |-> p.size, crc |-> p.crc, mtime |-> ANYT, mode |-> p.mode, traw |-> "", live |-> TRUE]),
                        << >>, pre)
       \* (the directory given with w= is created, with its parents, by the first entry extracted into it)
       fin  == FoldLeft(LAMBDA st, it : Step(base, opts, filters, st, it), [tree |-> t0, policy |-> opts.policy, ans |-> answers, stack |-> <<>>], items)
